@@ -66,6 +66,10 @@ func ScenarioByName(name string) *Scenario {
 		sc = StaticSilent(arg(1), arg(2), arg(3), arg(4))
 	case "late":
 		sc = LateWitness(arg(1))
+	case "unknownitx":
+		sc = UnknownItx(arg(1), arg(2), arg(3))
+	case "irregular":
+		sc = Irregular(arg(1), arg(2), arg(3), arg(4))
 	case "slow":
 		sc = Slow(arg(1), arg(2), arg(3), arg(4))
 	case "dups":
